@@ -186,6 +186,10 @@ func (m *maxInflightWrapper) SetLimit(acquireResult *AcquireResult) bool {
 			if inflight < localMax {
 				inflight = localMax
 			}
+			if inflight > m.max {
+				// what was observed before the schema shrank must not lift the fall-back above the configured maximum
+				inflight = m.max
+			}
 			klog.V(2).Infof("[global maxInflight] cluster=%q resize flowcontrol=%s max=%v for error: %v",
 				m.fcc.cluster, m.fcc.name, inflight, result.Error)
 			m.FlowControl.Resize(uint32(inflight), 0)
@@ -249,7 +253,15 @@ func (m *maxInflightWrapper) Resize(max uint32, burst uint32) bool {
 	if atomic.LoadUint32(&m.serverUnavailable) == 0 {
 		return m.FlowControl.Resize(uint32(m.reserve), 0)
 	}
-	return true
+	// the server is unavailable: the local fall-back stays in force, but never above the new configured maximum
+	inflight := m.meter.MaxInflight()
+	if localMax := m.fcc.local.localConfig.MaxRequestsInflight.Max; inflight < localMax {
+		inflight = localMax
+	}
+	if inflight > m.max {
+		inflight = m.max
+	}
+	return m.FlowControl.Resize(uint32(inflight), 0)
 }
 
 func (m *maxInflightWrapper) TryAcquire() bool {
